@@ -5,6 +5,7 @@ import (
 	"sort"
 	"strings"
 	"sync"
+	"unicode"
 
 	"github.com/MichaelMure/git-bug/cache"
 	"github.com/MichaelMure/git-bug/entity"
@@ -44,6 +45,49 @@ func evalCatalogue(p *population) []clause {
 		out = append(out, mk("search", v, false))
 	}
 	return append(out, sortClauses()...)
+}
+
+// caseWords are stored with exactly this spelling in names, logins and titles of the "filters"
+// population: their only capitals (if any) are non-ASCII.
+var caseWords = []string{"Émile", "Ørsted", "Überlauf", "Дмитрий", "Ωμέγα", "zähler"}
+
+// caseVariants: as stored, all lower, all upper, only the first non-ASCII letter's case flipped.
+func caseVariants(w string) []string {
+	flipped := []rune(w)
+	for i, r := range flipped {
+		if r > 127 && unicode.IsLetter(r) {
+			if unicode.IsUpper(r) {
+				flipped[i] = unicode.ToLower(r)
+			} else {
+				flipped[i] = unicode.ToUpper(r)
+			}
+			break
+		}
+	}
+	var out []string
+	seen := map[string]bool{}
+	for _, v := range []string{w, strings.ToLower(w), strings.ToUpper(w), string(flipped)} {
+		if !seen[v] {
+			seen[v] = true
+			out = append(out, v)
+		}
+	}
+	return out
+}
+
+// caseCatalogue is a second clause alphabet for the "filters" population: author / actor /
+// participant / title x every case variant of every caseWord, plus status and two sorts to combine
+// with. It is enumerated to 2 clauses.
+func caseCatalogue() []clause {
+	out := []clause{mk("status", "open", false), mk("status", "closed", false), mk("sort", "id", false), mk("sort", "edit-asc", false)}
+	for _, kind := range []string{"author", "actor", "participant", "title"} {
+		for _, w := range caseWords {
+			for _, v := range caseVariants(w) {
+				out = append(out, mk(kind, v, false))
+			}
+		}
+	}
+	return out
 }
 
 func safeQuery(c *cache.RepoCache, q *query.Query) (ids []entity.Id, err error, panicked any) {
